@@ -215,7 +215,10 @@ def main():
     for h, r in zip(sel, results):
         if r["verdict"] == "VIOLATION":
             # replay before reporting (DESIGN section 5)
-            if r.get("stubs_applied"):
+            # stubs that only cut cost (the real function behaves the same natively) do not prevent a native replay
+            benign = ("std::backtrace::Backtrace::capture", "std::hash::RandomState::new", "alloc::fmt::format")
+            real_stubs = [x for x in (r.get("stubs_applied") or []) if not x.split("->")[0].strip().startswith(benign)]
+            if real_stubs:
                 r["playback"] = {"mode": "model", "status": "not-applicable",
                                  "detail": "the harness runs the real code behind declared stubs, which do not exist in a "
                                            "native build; the counterexample is CBMC's trace over that encoding"}
